@@ -1,9 +1,12 @@
 import LLBuild.Drv.Common
 import LLBuild.Model.CApi
+import LLBuild.Model.CApiCallbacks
 
-/-! Line-protocol mode for C20: `fn <name>` prints the generated forwarding row of one exported function. -/
+/-! Line-protocol mode for C20: `fn <name>` prints the generated forwarding row of one exported function,
+`cb <Class::method>` the generated client-callback sites of one method of the binding, `status` / `cycle` the generated
+status mapping / cycle-array shape (diagnostic only). -/
 namespace LLBuild.Drv.C20
-open LLBuild LLBuild.Drv LLBuild.CApi LLBuild.Generated.CApiForward
+open LLBuild LLBuild.Drv LLBuild.CApi LLBuild.Generated.CApiForward LLBuild.Generated.CApiCallbacks
 
 def step (line : String) : String :=
   match fields line with
@@ -11,6 +14,16 @@ def step (line : String) : String :=
     match CFn.all.find? (·.name == n) with
     | some f => s!"calls={reprStr (calls f)} unused={unusedParams f} documented={decide (calls f = documented f)}"
     | none => "unknown-function"
+  | ["cb", n] =>
+    match Method.all.find? (·.name == n) with
+    | some m =>
+      let okSites := decide ((sitesOf m).map Site.toDoc = documentedCallback m)
+      let okGuards := (sitesOf m).all (fun s => decide (s.guard = documentedGuard s.callback))
+      s!"sites={reprStr (sitesOf m)} unused={unusedMethodParams m} documented={okSites} guards-documented={okGuards}"
+    | none => "unknown-method"
+  | ["status"] =>
+    s!"status={reprStr (EngineStatus.all.map (fun e => (e, statusMap e)))} documented={EngineStatus.all.all (fun e => decide (statusMap e = some (documentedStatus e)))}"
+  | ["cycle"] => s!"cycle={reprStr cycleArray} documented={decide (cycleArray = documentedCycleArray)}"
   | _ => "bad-op"
 
 def modes : List (String × Mode) := [("c20table", lineLoop step)]
